@@ -385,6 +385,47 @@ def overlapping_errors(out):
             jaxtyping.config.update("jaxtyping_remove_typechecker_stack", False)
 
 
+_NESTED_COUNTER = [0]
+
+
+def decoration_during_call(out):
+    """a decorated function that DEFINES (and decorates) another one while it runs — what the import hook produces for
+    every nested definition — with structure names shared between the two: the well-typed outer call returns, and when
+    the outer call really violates its return annotation the error lists exactly the bindings the call made (nothing that
+    stems from the decoration)"""
+    import beartype
+    import typeguard
+    from jaxtyping import PyTree, TypeCheckError
+
+    for ck, tc in (("typeguard", typeguard.typechecked), ("beartype", beartype.beartype)):
+        _NESTED_COUNTER[0] += 1
+        name = f"N{_NESTED_COUNTER[0]}s"
+
+        @jaxtyped(typechecker=tc)
+        def outer(n: int, bad: bool) -> PyTree[int, name]:
+            @jaxtyped(typechecker=tc)
+            def helper(t: PyTree[complex, name]):
+                return t
+
+            return (n, "x") if bad else (n, n + 1)
+
+        res = {}
+        for tag, bad in (("well-typed first call", False), ("well-typed second call", False), ("ill-typed call", True)):
+            try:
+                outer(1, bad)
+                res[tag] = "returned"
+            except TypeCheckError as e:
+                res[tag] = "TypeCheckError" + (" listing " + name if name + "=" in str(e) else "")
+            except BaseException as e:  # noqa: BLE001
+                res[tag] = type(e).__name__
+        out.case(("decoration-during-call", ck), True, sample={"checker": ck, **res})
+        want = {"well-typed first call": "returned", "well-typed second call": "returned", "ill-typed call": "TypeCheckError"}
+        if res != want:
+            out.violation(f"decoration-during-call:{ck}", f"outer(n) -> PyTree[int, {name!r}] decorates a helper annotated PyTree[complex, {name!r}] in its body ({ck}): {res}; "
+                          f"required {want} (the ill-typed return is a tuple with a str leaf: no structure was bound by any value of the call)", {"decoration_during_call": ck})
+            return
+
+
 def run(tier, seed, out, drv, facts):
     rng = Rng(seed, "C13")
     thorough = tier == "thorough"
@@ -393,6 +434,7 @@ def run(tier, seed, out, drv, facts):
             run_call(out, drv, facts, call, ck, False, rng, "misuse")
     overlapping_errors(out)
     after_misuse_cases(out)
+    decoration_during_call(out)
     for call in nested_cases():
         for rs in (False, True):
             run_call(out, drv, facts, call, "typeguard", rs, rng, "nested")
@@ -412,6 +454,9 @@ def run(tier, seed, out, drv, facts):
 def replay(rep, out, drv, facts):
     if "overlap" in rep:
         overlapping_errors(out)
+        return
+    if "decoration_during_call" in rep:
+        decoration_during_call(out)
         return
     if "after_misuse" in rep:
         after_misuse_cases(out)
